@@ -97,7 +97,7 @@ Section Quiet.
     intros opc ip0 ip s Hs; unfold i_37_42; cbv zeta.
     destruct (op_u32 P ip); [|inv_close]. destruct (op_u32 P (ip + 4)); [|inv_close].
     destruct (salloc s _) as [s1 a] eqn:E. apply push_next_ok.
-    apply salloc_keep in E; [inv_close|destruct (opc =? 37)%N; intros ? ?; discriminate].
+    apply salloc_keep in E; [inv_close|destruct (opc =? 37)%N; plain_tac].
   Qed.
   Lemma i_38_ok : forall opc ip0 ip s, Inv s -> sres_inv (i_38 P opc ip0 ip s). Proof. instr i_38. Qed.
 
@@ -630,7 +630,7 @@ Proof.
   assert (G : sres_inv J (step F bld P re ip0 s)).
   { apply step_quiet; try assumption.
     - intros x x1 K (A & B). split; [eapply keep_vm_ok; eauto|].
-      destruct K as (_ & _ & K7). intros a u. rewrite K7. apply B.
+      destruct K as (_ & _ & K7 & _). intros a u. rewrite K7. apply B.
     - intros x (A & _). exact A.
     - intros x c (A & B) Hc. split; [apply vm_ok_set_calls; assumption|exact B].
     - intros Hin. apply Hq. cbn in *. tauto.
@@ -754,9 +754,10 @@ Section Stable.
     - unfold i_45. rewrite Ei, Eil. cbv zeta. rewrite E1, Eca. subst is_local. cbn [N.eqb negb].
       destruct (st_calls s1) as [|fr rest]; [exact I|].
       destruct (fr_clo fr) as [fa|]; [|exact I].
-      destruct (hget (st_heap s1) fa) as [[t|b|h ar|h|h ar fups|u]|]; try exact I.
-      destruct (nth_error fups _) as [ua|]; [|exact I]. cbn [sres_inv].
-      apply (stable_keep s1); [|exact H1]. apply clo_append_keep. exact Eca.
+      destruct (hget (st_heap s1) fa) as [[t|b|h ar|h|h ar fups|u]|] eqn:Efa; try exact I.
+      destruct (nth_error fups _) as [ua|] eqn:Enth; [|exact I]. cbn [sres_inv].
+      apply (stable_keep s1); [|exact H1]. apply clo_append_keep; [exact Eca|].
+      intros Hok. eapply Hok; [exact Efa|eapply nth_error_In; exact Enth].
     - destruct (top_offset s1) as [off|] eqn:Eo.
       2:{ unfold i_45. rewrite Ei, Eil. cbv zeta. rewrite E1, Eca.
           destruct (N.eqb_spec is_local 0); [contradiction|]. cbn [negb]. rewrite Eo. exact I. }
@@ -770,7 +771,9 @@ Section Stable.
       destruct (in_dec Nat.eq_dec (off + N.to_nat index) (slots l)) as [Hin|Hnin].
       + unfold slots in Hin. apply in_map_iff in Hin. destruct Hin as ([a k] & Ek & Hin). cbn in Ek. subst k.
         rewrite (Hex a Hin). cbn [sres_inv].
-        apply (stable_keep s1); [|exact H1]. apply clo_append_keep. exact Eca.
+        apply (stable_keep s1); [|exact H1]. apply clo_append_keep; [exact Eca|].
+        intros _. destruct (seg_view _ _ _ _ _ _ Hseg Hin) as (nx & Ev). destruct (oview_some _ _ _ Ev) as (v & Hg).
+        eexists. exact Hg.
       + destruct (Hnew Hnin) as (s' & E & H' & _ & _ & _ & _ & _ & _ & _ & M). rewrite E. cbn [sres_inv].
         eapply stable_mono; [exact H1|exact M|exact H'].
   Qed.
@@ -845,4 +848,201 @@ Proof.
   - intros a u u' l H H' Hl. destruct (M _ _ H) as (o' & E & L). rewrite H' in E. injection E as <-. cbn in L. auto.
   - intros a lbl ar H. destruct (M _ _ H) as (o' & E & L). destruct o'; cbn in L; try contradiction.
     destruct L as [-> ->]. exact E.
+Qed.
+
+(* ------------------------------------------------------------------ *)
+(* heap closedness of closures under EVERY instruction                 *)
+(* ------------------------------------------------------------------ *)
+Definition closed_ok (x : state) : Prop := vm_ok x /\ clo_ok (st_heap x).
+
+Lemma heap_mono_up h h' a u : heap_mono h h' -> hget h a = Some (OUp u) -> exists u', hget h' a = Some (OUp u').
+Proof.
+  intros M H. destruct (M _ _ H) as (o' & E & L). destruct o' as [| | | | |u']; cbn in L; try contradiction. eauto.
+Qed.
+
+Lemma write_closed_clo s ua u wv :
+  hget (st_heap s) ua = Some (OUp u) -> clo_ok (st_heap s) -> clo_ok (st_heap (write_closed s ua u wv)).
+Proof.
+  intros Hu. unfold write_closed. cbn [st_heap set_heap]. apply clo_ok_transfer.
+  - intros a u0 H. destruct (N.eq_dec a ua) as [->|Hn].
+    + eexists. apply hget_hset_eq. eapply hget_lt; eauto.
+    + exists u0. rewrite hget_hset_ne by exact Hn. exact H.
+  - intros a lbl ar ups H. left. destruct (N.eq_dec a ua) as [->|Hn].
+    + rewrite hget_hset_eq in H by (eapply hget_lt; eauto). discriminate H.
+    + rewrite hget_hset_ne in H by exact Hn. exact H.
+Qed.
+
+Lemma close_from_clo top s l capn s' :
+  hopen_ok (st_heap s) (st_open s) capn l -> close_upvalues_from top s = ClOk s' ->
+  clo_ok (st_heap s) -> clo_ok (st_heap s').
+Proof.
+  intros Hh E. pose proof (close_from_mono _ _ _ _ _ Hh E) as M.
+  destruct (close_from_spec top s l capn Hh) as (s'' & E' & _ & _ & Hcl & Hun).
+  rewrite E in E'. injection E' as <-.
+  apply clo_ok_transfer.
+  - intros a u H. eapply heap_mono_up; eauto.
+  - intros a lbl ar ups H. left. destruct (in_closed_dec top l a) as [(loc & Hin & Ht)|Hall].
+    + destruct (Hcl _ _ Hin Ht) as (nx & E1). rewrite E1 in H. discriminate H.
+    + rewrite (Hun _ Hall) in H. exact H.
+Qed.
+
+Section Closed.
+  Variable F : fops.
+  Variable bld : build.
+  Variable P : program.
+  Notation J := closed_ok.
+
+  Lemma closed_keep : forall s s1, keep s s1 -> J s -> J s1.
+  Proof. intros s s1 K (A & B). split; [eapply keep_vm_ok; eauto|]. destruct K as (_ & _ & _ & K3). auto. Qed.
+  Lemma closed_vm : forall s, J s -> vm_ok s.
+  Proof. intros s (A & _). exact A. Qed.
+  Lemma closed_calls : forall s c, J s -> frames_lt (cap s) c -> J (set_calls s c).
+  Proof. intros s c (A & B) Hc. split; [apply vm_ok_set_calls; assumption|exact B]. Qed.
+  Lemma closed_write : write_closed_ok J.
+  Proof.
+    intros s ua u wv Hu Hl (A & B). split; [apply write_closed_vm_ok; assumption|].
+    apply write_closed_clo; assumption.
+  Qed.
+
+  Lemma push_next_closed ip s v : J s -> sres_inv J (push_next ip s v).
+  Proof.
+    intros Hs. unfold push_next. destruct (spush s v) as [s1|] eqn:E; cbn [sres_inv]; [|exact Hs].
+    eapply closed_keep; [eapply spush_keep; exact E|exact Hs].
+  Qed.
+
+  Lemma i_46_closed : forall opc ip0 ip s, J s -> sres_inv J (i_46 P opc ip0 ip s).
+  Proof.
+    intros opc ip0 ip s (Hv & Hc); unfold i_46; cbv zeta.
+    destruct (op_u32 P ip) as [idx|]; [|exact I].
+    destruct (top_offset s) as [off|]; [|exact I].
+    destruct (close_from_vm_ok (off + N.to_nat idx) s Hv) as (s' & E & H' & _). rewrite E. cbn [sres_inv].
+    destruct Hv as ((l & Hl) & _). split; [exact H'|eapply close_from_clo; eauto].
+  Qed.
+
+  Lemma i_22_closed : forall opc ip0 ip s, J s -> sres_inv J (i_22 opc ip0 ip s).
+  Proof.
+    intros opc ip0 ip s Hs; unfold i_22; cbv zeta.
+    destruct (st_calls s) as [|fr rest] eqn:Ec; [exact Hs|].
+    pose proof (closed_vm _ Hs) as Hv.
+    assert (Hfr : N.to_nat (fr_off fr) < cap s /\ frames_lt (cap s) rest).
+    { destruct Hv as (_ & _ & Hf). rewrite Ec in Hf. inversion Hf; subst. split; assumption. }
+    destruct Hfr as [Hoff Hrest].
+    assert (Hs1 : J (set_calls s rest)) by (apply closed_calls; assumption).
+    destruct Hs1 as (Hv1 & Hc1).
+    destruct (close_from_vm_ok (N.to_nat (fr_off fr)) _ Hv1) as (s2 & E & H2 & Hsame). rewrite E.
+    assert (J2 : J s2).
+    { destruct Hv1 as ((l & Hl) & _). split; [exact H2|eapply close_from_clo; eauto]. }
+    destruct (sclear_until s2 _) as [s3 v] eqn:E3. apply sclear_until_keep in E3.
+    - pose proof (closed_keep _ _ E3 J2) as J3.
+      destruct rest as [|prev rest']; [exact J3|]. apply push_next_closed. exact J3.
+    - destruct Hsame as (A1 & _). unfold cap in *. rewrite A1. exact Hoff.
+  Qed.
+
+  Lemma i_45_closed : forall opc ip0 ip s, J s -> sres_inv J (i_45 P opc ip0 ip s).
+  Proof.
+    intros opc ip0 ip s Hs.
+    destruct (read_le (p_code P) ip 1) as [index|] eqn:Ei; [|unfold i_45; rewrite Ei; exact I].
+    destruct (read_le (p_code P) (ip + 1) 1) as [is_local|] eqn:Eil; [|unfold i_45; rewrite Ei, Eil; exact I].
+    destruct (spop s) as [s1 cv] eqn:E1.
+    assert (H1 : J s1) by (eapply closed_keep; [eapply spop_keep; exact E1|exact Hs]).
+    pose proof H1 as (Hv1 & Hc1).
+    destruct cv as [|z|r|ca]; try (unfold i_45; rewrite Ei, Eil; cbv zeta; rewrite E1; exact H1).
+    destruct (hget (st_heap s1) ca) as [[t|b|h ar|h|ch car cups|u]|] eqn:Eca;
+      try (unfold i_45; rewrite Ei, Eil; cbv zeta; rewrite E1, Eca; first [exact H1|exact I]).
+    destruct (N.eqb_spec is_local 0) as [Ez|Hnz].
+    - unfold i_45. rewrite Ei, Eil. cbv zeta. rewrite E1, Eca. subst is_local. cbn [N.eqb negb].
+      destruct (st_calls s1) as [|fr rest]; [exact I|].
+      destruct (fr_clo fr) as [fa|]; [|exact I].
+      destruct (hget (st_heap s1) fa) as [[t|b|h ar|h|h ar fups|u]|] eqn:Efa; try exact I.
+      destruct (nth_error fups _) as [ua|] eqn:Enth; [|exact I]. cbn [sres_inv].
+      apply (closed_keep s1); [|exact H1]. apply clo_append_keep; [exact Eca|].
+      intros Hok. eapply Hok; [exact Efa|eapply nth_error_In; exact Enth].
+    - destruct (top_offset s1) as [off|] eqn:Eo.
+      2:{ unfold i_45. rewrite Ei, Eil. cbv zeta. rewrite E1, Eca.
+          destruct (N.eqb_spec is_local 0); [contradiction|]. cbn [negb]. rewrite Eo. exact I. }
+      destruct (Nat.leb_spec (scount s1) (off + N.to_nat index)) as [Lc|Lc].
+      { unfold i_45. rewrite Ei, Eil. cbv zeta. rewrite E1, Eca.
+        destruct (N.eqb_spec is_local 0); [contradiction|]. cbn [negb]. rewrite Eo.
+        destruct (Nat.leb_spec (scount s1) (off + N.to_nat index)); [exact I|lia]. }
+      pose proof Hv1 as ((l & Hl) & _). destruct Hl as (Hseg & _).
+      destruct (i_45_local_spec P opc ip0 ip s index is_local s1 ca ch car cups off l _
+                  Ei Eil Hnz E1 Eca Eo eq_refl Lc Hv1 Hseg) as [Hex Hnew].
+      destruct (in_dec Nat.eq_dec (off + N.to_nat index) (slots l)) as [Hin|Hnin].
+      + unfold slots in Hin. apply in_map_iff in Hin. destruct Hin as ([a k] & Ek & Hin). cbn in Ek. subst k.
+        rewrite (Hex a Hin). cbn [sres_inv].
+        apply (closed_keep s1); [|exact H1]. apply clo_append_keep; [exact Eca|].
+        intros _. destruct (seg_view _ _ _ _ _ _ Hseg Hin) as (nx & Ev). destruct (oview_some _ _ _ Ev) as (v & Hg).
+        eexists. exact Hg.
+      + destruct (Hnew Hnin) as (s' & E & H' & _ & Hca' & (nx & Hua') & _ & _ & _ & Hun & M). rewrite E.
+        cbn [sres_inv]. split; [exact H'|].
+        set (ua := N.of_nat (length (st_heap s1))) in *.
+        apply (clo_ok_transfer (st_heap s1)); [| |exact Hc1].
+        * intros a u H. eapply heap_mono_up; eauto.
+        * intros x lbl ar ups Hx.
+          destruct (N.eq_dec x ca) as [->|Hnc].
+          { right. rewrite Hca' in Hx. injection Hx as <- <- <-. intros lbl' ar' ups' ua0 E0 Hin0.
+            injection E0 as <- <- <-. apply in_app_or in Hin0. destruct Hin0 as [Hin0|[<-|[]]].
+            - destruct (Hc1 _ _ _ _ _ Eca Hin0) as (u0 & Hu0). eapply heap_mono_up; eauto.
+            - eexists. exact Hua'. }
+          destruct (N.eq_dec x ua) as [->|Hnu]; [rewrite Hua' in Hx; discriminate Hx|].
+          destruct (oview (hget (st_heap s1) x)) as [p|] eqn:Ev.
+          { destruct p as [k nx']. destruct (oview_some _ _ _ Ev) as (v & Hg).
+            destruct (heap_mono_up _ _ _ _ M Hg) as (u' & Hu'). rewrite Hu' in Hx. discriminate Hx. }
+          left. rewrite <- (Hun x Ev Hnu Hnc). exact Hx.
+  Qed.
+
+  Theorem step_closed : forall reenter,
+    (forall ip s, J s -> rres_inv J (reenter ip s)) ->
+    forall ip s, J s -> sres_inv J (step F bld P reenter ip s).
+  Proof.
+    intros re Hre. apply step_inv.
+    - exact closed_keep.
+    - exact closed_vm.
+    - exact closed_calls.
+    - exact Hre.
+    - exact closed_write.
+    - exact i_45_closed.
+    - exact i_46_closed.
+    - exact i_22_closed.
+  Qed.
+
+  Lemma run_at_closed max_instr : forall depth ip s,
+    J s -> rres_inv J (run_at F bld P false max_instr depth ip s).
+  Proof.
+    induction depth as [|d IH]; intros ip s Hs; cbn [run_at]; [exact I|].
+    unfold run_loop. apply loop_inv; try assumption.
+    - exact closed_keep.
+    - exact closed_vm.
+    - exact closed_calls.
+    - exact closed_write.
+    - exact i_45_closed.
+    - exact i_46_closed.
+    - exact i_22_closed.
+  Qed.
+End Closed.
+
+Lemma fresh_state_closed : closed_ok fresh_state.
+Proof.
+  split; [apply fresh_state_vm_ok|]. intros ca lbl ar ups ua H. unfold hget in H. cbn in H.
+  destruct (N.to_nat ca); discriminate H.
+Qed.
+
+Theorem run_closed : forall F bld budget P s o s',
+  closed_ok s -> run F bld budget P s = (o, s') -> (forall a, o <> OAbort a) -> closed_ok s'.
+Proof.
+  intros F bld budget P s o s' Hs Hr Hna. unfold run, run_gen in Hr.
+  destruct (push_frame s _) as [s1|] eqn:E1.
+  2:{ injection Hr as <- <-. exact Hs. }
+  assert (H1 : closed_ok s1).
+  { destruct Hs as (Hv & Hc). split.
+    - eapply push_frame_vm_ok; [exact E1|exact Hv|]. cbn. destruct Hv as (_ & Hcnt & _). lia.
+    - unfold push_frame in E1. destruct (_ <=? _); [discriminate|]. injection E1 as <-. exact Hc. }
+  assert (H2 : closed_ok (set_rem s1 (N.of_nat budget))).
+  { eapply closed_keep; [apply set_rem_keep|exact H1]. }
+  pose proof (run_at_closed F bld P (N.of_nat budget) max_depth 0 _ H2) as H.
+  unfold finish, outcome_of in Hr.
+  destruct (run_at F bld P false (N.of_nat budget) max_depth 0 _) as [x|e ip x|a x]; cbn [rres_inv] in H.
+  - injection Hr as <- <-. destruct H as [A B]. split; [apply vm_ok_set_calls; [exact A|constructor]|exact B].
+  - injection Hr as <- <-. destruct H as [A B]. split; [apply vm_ok_set_calls; [exact A|constructor]|exact B].
+  - injection Hr as <- <-. exfalso. eapply Hna. reflexivity.
 Qed.
